@@ -108,6 +108,9 @@ func withHandler(o ls.Options, on bool) ls.Options {
 func play(o ls.Options, raw []byte, chunks []int, sleeps []int32, space string) {
 	flip++
 	full := ls.NewLoop(withHandler(ls.All(buf), flip%4 >= 2))
+	// every class option of the listener under test is given once, twice or
+	// three times (lists of defaults and user options put together)
+	o.Repeat = (flip / 4) % 3
 	rest := ls.NewLoop(withHandler(o, flip%2 == 1))
 	ctx.Eval()
 	pos := 0
@@ -545,6 +548,7 @@ func main() {
 	}
 	ctx.Jobs("sender", len(jobs), func(j int) { senderSpace(jobs[j].o, jobs[j].first) })
 	ctx.Jobs("relisten", len(cs), func(j int) { relistenSpace(j) })
+	ctx.Jobs("periodic", 16, func(j int) { periodic(j, 16) })
 	ctx.Jobs("known-sysex", 1, func(int) { knownSysexSpace(); subMillis() })
 	nc := len(chunkClasses)
 	ctx.Jobs("long-chunks", nc*nc, func(j int) { chunkSpace(j/nc, j%nc) })
@@ -555,6 +559,73 @@ func main() {
 	ctx.Sample(map[string]interface{}{"options": "sysex=false,clock=true,sense=false", "wire": "F0 10 F8 11 F7 FE 90 3C 40", "expect": "F8 and the note-on arrive with the stamps they have under all options; sysex and FE are absent"})
 	ctx.Guard(ctx.NontrivialCount() > 1000, "filters hardly ever had anything to remove: %d", ctx.NontrivialCount())
 	ctx.Finish("for each of the 8 option combinations: BFS over sender-legal single-byte Sends on the pair (all options, this combination) to the fixpoint; sender sequences up to depth 3/4 x legal elisions, one chunk and bytewise; depth <= 2: every partition with time deltas, each real-time class inserted at every position; non-trivial = runs in which the projection removed at least one message")
+}
+
+// periodic: hundreds of messages in few Send calls (a driver that sorts,
+// batches or buffers what one call produced works on more than a handful):
+// every pattern of one or two messages over six kinds, 400 messages (thorough
+// 4000), in one piece, in chunks of 7 and of 61 bytes with a millisecond in
+// between, under each of the eight option sets.
+func periodic(part, parts int) {
+	var kinds []ls.SMsg
+	for _, k := range []string{"NoteOn0a", "NoteOn0b", "Clock", "ActiveSense", "SysExFull", "Prog0"} {
+		for _, a := range alphabet {
+			if a.Name == k {
+				kinds = append(kinds, a)
+			}
+		}
+	}
+	total := ctx.Pick(400, 4000)
+	var pats [][]int
+	for a := range kinds {
+		pats = append(pats, []int{a})
+		for b := range kinds {
+			if a != b {
+				pats = append(pats, []int{a, b})
+			}
+		}
+	}
+	k := 0
+	for _, pat := range pats {
+		seq := make([]ls.SMsg, 0, total+2)
+		for len(seq) < total {
+			for _, p := range pat {
+				seq = append(seq, kinds[p])
+			}
+		}
+		for _, elide := range []bool{true, false} {
+			wire := ls.SerializeLong(seq, elide)
+			for _, ins := range []int{0, 3, 5} {
+				// a real-time byte after every third / fifth byte of the stream (inside
+				// messages and inside sysex as well)
+				raw := make([]byte, 0, 2*len(wire))
+				for i, w := range wire {
+					raw = append(raw, w.B)
+					if ins == 3 && i%3 == 2 {
+						raw = append(raw, 0xF8)
+					}
+					if ins == 5 && i%5 == 4 {
+						raw = append(raw, 0xFE)
+					}
+				}
+				for _, size := range []int{len(raw), 7, 61} {
+					var chunks []int
+					var sleeps []int32
+					for left := len(raw); left > 0; left -= size {
+						chunks = append(chunks, min(size, left))
+						sleeps = append(sleeps, 1)
+					}
+					for _, o := range combos() {
+						k++
+						if k%parts == part {
+							play(o, raw, chunks, sleeps, "periodic")
+							ctx.Add("periodic_plays", 1)
+						}
+					}
+				}
+			}
+		}
+	}
 }
 
 func replay() {
@@ -593,6 +664,10 @@ func replay() {
 		}
 		ctx.Finish("replay")
 	}
-	play(o, raw, chunks, sleeps, "replay")
+	// which listener carried the error handler and how often the options were
+	// given depends on a running counter: all twelve variants
+	for i := 0; i < 12; i++ {
+		play(o, raw, chunks, sleeps, "replay")
+	}
 	ctx.Finish("replay")
 }
